@@ -27,8 +27,8 @@ ANT = "chan/AntGain.tla"
 MODELS = ["general", "3gpp1", "freespace", "metis", "hata"]
 DEVS = ["FcRejectKeepsValue", "NSetterKeepsC", "FcSetterKeepsC", "ClampArrayOnly", "HataRejectAssigns", "ShadowAfterPolicy"]
 FID_FC = "C13-freespace-fc-reject-not-atomic"
-FID_I8 = "C13-int8-distances-half-precision"
-TAG_I8 = "[8-bit integer distances]"
+FID_I8 = "C13-integer-distances-reduced-precision"
+TAG_I8 = "[8/16-bit integer distances]"
 TOL = 1e-9
 
 
@@ -336,7 +336,7 @@ def sweep(fn, args, kind0, x0, rel=False, dist8=True):
             continue
         for label, v, f in variants(a):
             r = one(i, a, label, v, f)
-            if r and i == 0 and dist8 and label in ("int8", "uint8"):
+            if r and i == 0 and dist8 and label in ("int8", "uint8", "int16"):
                 first8 = first8 or f"{TAG_I8} {r}"  # signature of a listed finding; keep looking for anything else
             elif r:
                 return r
